@@ -218,7 +218,7 @@ theorem stmt_id_space : maxPreparedStmtId = 4294967296 := by decide
 
 /-- non-vacuity: a concrete connection with one statement whose cursor holds three packets; fetches of 2 and 5 -/
 example :
-    let c : Connection Unit := ⟨0, 0, [(7, ⟨7, (), 0, none, some ⟨[[1], [2], [3]], false⟩⟩)], [], ⟨some maxPreparedStmtId, 8⟩, 45, 45⟩
+    let c : Connection Unit := ⟨0, 0, [(7, ⟨7, (), 0, none, some ⟨[[1], [2], [3]], false⟩⟩)], [], ⟨some maxPreparedStmtId, 8⟩, 45, 45, false⟩
     let d (n : UInt8) : Mimic.Py.Bytes := [7, 0, 0, 0, n, 0, 0, 0]
     rowsOut (runFetches c [d 2, d 5]).out = [[1], [2], [3]] := by decide
 
